@@ -4,8 +4,9 @@
 import json, re, shutil, sys
 from pathlib import Path
 ID, k = sys.argv[1], sys.argv[2]
-src = Path("/tmp/mut/out") / ID / ("m" + k)
-dst = Path("/verif/seeded") / ("%s-m%s" % (ID, k))
+import os
+src = Path(os.environ.get("SEED_OUT", "/tmp/mut/out")) / ID / ("m" + k)
+dst = Path("/verif/seeded") / ("%s-m%s%s" % (ID, k, os.environ.get("SEED_SUFFIX", "")))
 conf = (src / "confirm.txt").read_text()
 ev = (src / "eval.txt").read_text() if (src / "eval.txt").exists() else ""
 sec = conf.split("-- ")
@@ -18,11 +19,12 @@ demo_with = "FAILED" in sec[2] if len(sec) > 2 else False
 demo_without = ("test result: ok" in sec[3] and "FAILED" not in sec[3]) if len(sec) > 3 else False
 confirmed = demo_with and demo_without
 caught = sorted(set(re.findall(r"VIOLATION property=(C\d+)", ev)))
-harnesses = sorted(set(re.findall(r"counterexample: (?:harness|program) (\S+?):", ev)))
+harnesses = sorted(set(re.findall(r"counterexample: (?:harness|program) (\S+): ", ev)))
 evaluated = re.findall(r"seedrun: (C\d+) -> exit (\d+)", ev)
 # honest history: which seeded changes the checks caught as they were when the change arrived, and which needed strengthening first
 HISTORY = {
  "C01-m1": "MISSED at first (derived enums were only checked under C05); derived members are now cross-listed under C01/C02/C03 (c01q_derived_*)",
+ "C01-m2": "MISSED at first under C01 (its only bit-slice harness used a u16 store and did not finish within 300 s; the C06 harness c06q_bits_lsb_o2_n3 did catch it); bit-slice harnesses reshaped to the feasible region (Lsb0, u8 store, inside one word) and c01q_bits_lsb_o2_n4 added",
  "C02-m1": "MISSED at first (no repr(transparent) type with a compact field in the family); STransCompact/STransAs/STransSkipZst added with boxed/array decode + round trip",
  "C02-m2": "MISSED at first (no element type with an empty encoding but non-zero size); c02q_vec_of_empty_encoding_elems added",
  "C03-m2": "MISSED at first under C03 (derived enums only under C05); c03q_derived_* cross-listing added",
